@@ -713,3 +713,77 @@ theorem runHistory_faithful (fuel pf : Nat) (fs : FS) (hist : List Nat) :
       exact ih _ (histStep_faithful fuel pf fs st n hf)
 
 end Genshi.Exec
+
+namespace Genshi.Exec
+
+/-! ### a loader whose flag is off: only the generating template's own blocks can run -/
+
+/-- ids of the code blocks among the items -/
+def codeIds : List Item → List Nat
+  | [] => []
+  | .code i _ :: rest => i :: codeIds rest
+  | _ :: rest => codeIds rest
+
+theorem mem_codeIds {items : List Item} {i m : Nat} (h : Item.code i m ∈ items) : i ∈ codeIds items := by
+  induction items with
+  | nil => cases h
+  | cons x xs ih =>
+      cases h with
+      | head => simp [codeIds]
+      | tail _ h' => cases x <;> simp [codeIds, ih h']
+
+/-- generating *any* template object (its own flag may be on: it may hold EXEC events) through a
+    loader whose flag is off and whose cache is code-free: whatever is added to the sentinel comes
+    from that template's own code blocks — nothing it includes, at any depth, runs -/
+theorem gen_own_only (fuel pf : Nat) (fs : FS) (prep : Bool) (host : Cls) (stack : List Nat) (t : Tmpl)
+    (st : St) (hc : StClean st) :
+    StClean (gen fuel pf fs prep host stack t st).1 ∧
+      ∀ i ∈ (gen fuel pf fs prep host stack t st).1.sentinel, i ∈ st.sentinel ∨ i ∈ codeIds t.items := by
+  cases fuel with
+  | zero => exact ⟨hc, fun i hi => Or.inl hi⟩
+  | succ fuel =>
+      unfold gen
+      apply foldl_inv (fun (r : Res) => StClean r.1 ∧ ∀ i ∈ r.1.sentinel, i ∈ st.sentinel ∨ i ∈ codeIds t.items)
+      · by_cases hp : (prep && !st.autoReload) = true
+        · rw [if_pos hp]
+          have := preload_clean pf fs stack t st hc
+          exact ⟨this.1, by intro i hi; rw [this.2.1] at hi; exact Or.inl hi⟩
+        · rw [if_neg hp]; exact ⟨hc, fun i hi => Or.inl hi⟩
+      · intro acc it hit hacc
+        obtain ⟨sa, ea⟩ := acc
+        cases ea with
+        | some e => exact hacc
+        | none =>
+            obtain ⟨hca, hsa⟩ := hacc
+            simp only at hca hsa
+            cases it with
+            | text i => exact ⟨⟨hca.1, hca.2⟩, hsa⟩
+            | expr i => exact ⟨⟨hca.1, hca.2⟩, hsa⟩
+            | code i m =>
+                refine ⟨⟨hca.1, hca.2⟩, ?_⟩
+                intro j hj
+                simp only [List.mem_append, List.mem_replicate] at hj
+                rcases hj with hj | ⟨_, rfl⟩
+                · exact hsa j hj
+                · exact Or.inr (mem_codeIds hit)
+            | incl n p dyn =>
+                simp only
+                by_cases hin : (!sa.autoReload && !dyn && !stack.contains n) = true
+                · rw [if_pos hin]
+                  cases hl : load fs sa n (childCls t.cls p) t.absHrefs with
+                  | error e => exact ⟨hca, hsa⟩
+                  | ok pr =>
+                      obtain ⟨st', t'⟩ := pr
+                      obtain ⟨hc', ht', hs', _, _⟩ := load_clean fs sa st' n _ _ t' hca hl
+                      have := gen_clean fuel pf fs false host (n :: stack) t' st' hc' ht'
+                      exact ⟨this.1, by intro i hi; rw [this.2.1, hs'] at hi; exact hsa i hi⟩
+                · rw [if_neg hin]
+                  cases hl : load fs sa n (inclCls t.cls p host) t.absHrefs with
+                  | error e => exact ⟨hca, hsa⟩
+                  | ok pr =>
+                      obtain ⟨st', t'⟩ := pr
+                      obtain ⟨hc', ht', hs', _, _⟩ := load_clean fs sa st' n _ _ t' hca hl
+                      have := gen_clean fuel pf fs true t'.cls [t'.name] t' st' hc' ht'
+                      exact ⟨this.1, by intro i hi; rw [this.2.1, hs'] at hi; exact hsa i hi⟩
+
+end Genshi.Exec
